@@ -366,7 +366,8 @@ def _check_elem(cx, elem, mod):
     # cube and grey assignments to the colour variable
     n_poly = 0
     from sa import intervals
-    comps = [(st, v, elem, pcolor) for st, v in assignments(elem, pcolor) if v is not None]
+    comps = [(st, v, elem, pcolor) for st, v in assignments(elem, pcolor) if v is not None
+             and not (isinstance(v, ast.Call) and intervals._helper(v, elem, cx.repo) is not None)]        # helper results: judged at the helper's returns
     for c_ in [x for x in walk_local(elem) if isinstance(x, ast.Call)]:
         h_ = intervals._helper(c_, elem, cx.repo)
         if h_ is not None and h_ is not elem and c_.args and is_name(c_.args[0], pcolor):
